@@ -156,7 +156,7 @@ def _discharge_one(idx):
         model = {}
         for k, t in (ob.meta.get("watch") or {}).items():
             try:
-                model[k] = str(m.eval(t, model_completion=True))
+                model[k] = V.decode(m.eval(t, model_completion=True))
             except Exception as ex:       # pragma: no cover
                 model[k] = f"<{ex}>"
         model["__model__"] = str(m)[:4000]
